@@ -677,6 +677,7 @@ func permutations(n int, f func(p []int)) {
 
 func run(c *core.Ctx) {
 	r := c.Rng
+	c.ShardSize = 50 // histories are long: small shards keep every coqc run to a few seconds
 
 	// 1. exhaustive: every insertion order of n distinct keys, then every single deletion
 	maxN := c.N(6, 7, 7)
